@@ -24,6 +24,8 @@ ASSUMPTIONS = [
     "CUDA-event based synchronisation (eventRecord/streamWaitEvent/eventSynchronize) is not generated in this tier",
     "an unstable sort may return rows with equal keys in any order",
 ]
+BLOCKING_CALLS = ("cudaDeviceSynchronize", "cudaStreamSynchronize", "cudaEventQuery", "cudaEventSynchronize", "cudaMemcpy",
+                  "cudaMemcpyAsync")
 SYNC_CALLS = ("cudaStreamSynchronize", "cudaDeviceSynchronize", "cudaEventSynchronize")
 
 
@@ -127,6 +129,16 @@ def check_graph(g, rows, m, tag: str, viol: List[Any], ctx) -> Dict[str, int]:
             viol.append((f"{tag}/weight-is-neither-time-difference-nor-zero/{ty}", ectx))
         if ty in ("DEPENDENCY", "SYNC_DEPENDENCY") and e.weight != 0:
             viol.append((f"{tag}/dependency-edge-with-weight/{ty}", ectx))
+        if e.weight != dt and dt >= 0:
+            # zero although time passes: only dependencies, synchronisation, the closing segment of a blocking call,
+            # and - when the option asks for them - the extra zero-weight launch edges
+            if ty == "KERNEL_KERNEL_DELAY":
+                viol.append((f"{tag}/kernel-kernel-delay-does-not-weigh-the-time-difference", ectx))
+            elif ty == "KERNEL_LAUNCH_DELAY" and not ctx.get("flag"):
+                viol.append((f"{tag}/launch-delay-does-not-weigh-the-time-difference-although-zero-weight-launch-edges-are-off", ectx))
+            elif ty == "OPERATOR_KERNEL" and not (rv is not None and rv["stream"] == -1 and not sv.is_start
+                                                  and rv["name"] in BLOCKING_CALLS):
+                viol.append((f"{tag}/span-edge-weighs-zero-outside-a-blocking-call", ectx))
         if ru is None or rv is None:
             continue
         if ty == "KERNEL_LAUNCH_DELAY":
@@ -170,7 +182,10 @@ def check(world) -> Dict[str, Any]:
     clipped = False
     max_dev = bounds(world.get("tier", "quick"))["tie_max_dev"]
     for (ann, inst) in cpworlds.windows(world):
-        for flag in ((world["flag"],) if ann else (0, 1)):
+        # on first, then off: the option is read per analysis, so inside one world it is switched on -> off and, in the
+        # sequence of worlds a worker analyses, off -> on
+        both = (1, 0)
+        for flag in ((world["flag"],) if ann else both):
             def run():
                 try:
                     return cpworlds.analyse(ta, ann, inst, flag, rank)
